@@ -192,6 +192,10 @@ def run_item(item, job, interner, classes, workdir):
             rec["status"] = "ok"
             rec["exit"] = bool(res[0]) if res else False
             rec["stderr"] = (res[4] or "")[:300] if res else ""
+            if "Invalid configuration" in rec["stderr"]:
+                # every configuration of this family is meant to be valid: a rejected one means the scenario explored nothing
+                rec["status"] = "machinery"
+                rec["tb"] = rec["stderr"]
     except SystemExit as e:
         rec["status"] = "exit"
         rec["exit"] = bool(e.code)
